@@ -870,6 +870,21 @@ func (i *Index) DropSeriesList(seriesIDs []uint64, keys [][]byte, _ bool) error 
 		}
 	}
 
+	// If there are cached sets for any of the tag pairs of the dropped series, they
+	// need to be updated, as DropSeries does: the series may live on in another shard
+	// of the database, in which case its id stays valid in the series file and nothing
+	// else keeps a stale cached set from listing it here.
+	for idx, key := range keys {
+		name, tags := models.ParseKeyBytes(key)
+		i.tagValueCache.RLock()
+		if i.tagValueCache.measurementContainsSets(name) {
+			for _, pair := range tags {
+				i.tagValueCache.delete(name, pair.Key, pair.Value, seriesIDs[idx]) // Takes a lock on the series id set
+			}
+		}
+		i.tagValueCache.RUnlock()
+	}
+
 	// Add sketch tombstone.
 	i.mu.Lock()
 	defer i.mu.Unlock()
